@@ -1,5 +1,6 @@
 import ComposeVerif.Lemmas.TravInvS
 import ComposeVerif.Lemmas.TravLive
+import ComposeVerif.Lemmas.TravFair
 import ComposeVerif.Lemmas.TravSkip
 import ComposeVerif.Lemmas.TravRank
 import ComposeVerif.Lemmas.DepGraphProj
@@ -182,6 +183,109 @@ theorem result_first_error {g : Graph} {lim : Option Nat} (hg : GraphOK g) {s : 
         | some x => rw [hl] at hnone; cases hnone
         | none => simp at hl
 
+/-! ### round 5: liveness that does not lean on the environment, completion, no overlap, exact counts -/
+
+/-- **progress of `walk` itself**: in every reachable state `walk` has returned, or one of its own goroutines can take a
+step (`internal`: every label but a visitor's return and the caller's cancellation), or a visitor callback is in
+progress — and that visitor may return, with either result.  So `walk` never waits for anything but a visitor:
+no lost wake-up, no full channel, no errgroup slot that nobody frees; on the success path, after an error, after a
+cancellation, with or without skipped (root-selection) vertices.  (`deadlock_free` alone would also be satisfied by the
+environment step `extCancel`.) -/
+theorem progress_internal {g : Graph} {lim : Option Nat} (hg : GraphOK g) (hl : ∀ n, lim = some n → 1 ≤ n)
+    {s : St} (h : Reach g lim s) :
+    terminal s ∨ (∃ l s', internal l = true ∧ step? g lim s l = some s') ∨
+    (∃ v, wpc s.workers v = some .running ∧ ∀ e, ∃ s', step? g lim s (.wReturn v e) = some s') := by
+  have hI := reach_inv hg h
+  rcases progress_inv g hg lim hl s hI.a hI.b with ht | hi | ⟨v, hv⟩
+  · exact .inl ht
+  · exact .inr (.inl hi)
+  · exact .inr (.inr ⟨v, hv, fun e => running_can_return g lim s v e hv⟩)
+
+/-- **liveness under fairness**: a schedule that is fair to `walk` (no internal step is left enabled) and in which every
+visitor that was entered has returned (no visitor in progress) has ended with `walk` returned.  Together with
+`terminates` (no infinite schedule): under a fair scheduler and visitors that return, `walk` returns. -/
+theorem fair_maximal_run_is_terminal {g : Graph} {lim : Option Nat} (hg : GraphOK g) (hl : ∀ n, lim = some n → 1 ≤ n)
+    {s : St} (h : Reach g lim s) (hint : ∀ l, internal l = true → step? g lim s l = none)
+    (hvis : ∀ v, wpc s.workers v ≠ some .running) : terminal s := by
+  rcases progress_internal hg hl h with ht | ⟨l, s', hi, hs⟩ | ⟨v, hv, _⟩
+  · exact ht
+  · rw [hint l hi] at hs; cases hs
+  · exact absurd hv (hvis v)
+
+/-- **every reachable state can be completed** without an error and without a cancellation: there is a continuation
+(every visitor still in progress returns nil, nobody cancels) of at most `mu g s` steps after which `walk` has
+returned.  No reachable state is doomed. -/
+theorem every_state_can_finish {g : Graph} {lim : Option Nat} (hg : GraphOK g) (hl : ∀ n, lim = some n → 1 ≤ n)
+    {s : St} (h : Reach g lim s) :
+    ∃ ls s', runL g lim s ls = some s' ∧ terminal s' ∧ ls.length ≤ mu g s ∧ ls.all calm = true :=
+  can_finish hg hl (mu g s) s h (Nat.le_refl _)
+
+/-- **no overlap with prerequisites** (state form of `after_deps`, for every moment and not only visitor entry): while
+a worker of `v` exists (from `eg.Go` to its exit — in particular while `v`'s visitor runs), every prerequisite `d` of `v`
+that still has a worker is past `t.done` (`marked` / `sent`): its visitor has returned. -/
+theorem no_overlap_with_deps {g : Graph} {lim : Option Nat} (hg : GraphOK g) {s : St} (h : Reach g lim s)
+    (v : V) (pc : WPc) (hv : (v, pc) ∈ s.workers) (d : V) (hd : d ∈ g.pre v) (pcd : WPc) (hdw : (d, pcd) ∈ s.workers) :
+    ∃ e, pcd = .marked e ∨ pcd = .sent e :=
+  let hI := reach_inv hg h
+  worker_pre_done hI.a (fun u hu => hI.l.depsVisited u (.inr hu)) v pc hv d hd pcd hdw
+
+/-- **exact counts on success**: when `walk` returned nil (and the caller did not cancel), the visitor was entered
+exactly once for every vertex the root selection keeps and never for a vertex it skips; skipped vertices still went
+through the whole hand-off (status `visited`, received by the coordinator) — the ignored-node path is live. -/
+theorem exact_counts_on_success {g : Graph} {lim : Option Nat} (hg : GraphOK g) {s : St} (h : Reach g lim s)
+    (ht : terminal s) (hok : s.firstErr = none) (hext : s.extCancelled = false) :
+    ∀ v ∈ g.verts, (starts s.log).count v = (if g.skip v then 0 else 1) ∧
+                   (finishes s.log).count v = (if g.skip v then 0 else 1) ∧
+                   s.status v = .visited ∧ v ∈ s.received := by
+  intro v hv
+  have ⟨hn1, hn2, hwhere⟩ := once hg h
+  have hfs : ∀ u ∈ finishes s.log, u ∈ starts s.log := (reach_inv hg h).l.finSubStarts
+  have hnc : s.cancelled = false := by
+    have h3 := (result_first_error hg h).2.2.1
+    cases hc : s.cancelled with
+    | false => rfl
+    | true =>
+      rcases h3.mp hc with h' | h'
+      · exact absurd hok h'
+      · rw [hext] at h'; cases h'
+  have ⟨hvis, hrecv⟩ := terminal_complete hg h ht hnc v hv
+  cases hk : g.skip v with
+  | true =>
+    have hns : v ∉ starts s.log := fun hm => by have := (hwhere v hm).2; rw [hk] at this; cases this
+    have hnf : v ∉ finishes s.log := fun hm => hns (hfs v hm)
+    simp [List.count_eq_zero.mpr hns, List.count_eq_zero.mpr hnf, hvis, hrecv]
+  | false =>
+    have ⟨hs, hf⟩ := exactly_once_on_success hg h ht hok hext v hv hk
+    have c1 : (starts s.log).count v = 1 :=
+      Nat.le_antisymm (List.nodup_iff_count.mp hn1 v) (List.count_pos_iff.mpr hs)
+    have c2 : (finishes s.log).count v = 1 :=
+      Nat.le_antisymm (List.nodup_iff_count.mp hn2 v) (List.count_pos_iff.mpr hf)
+    simp [c1, c2, hvis, hrecv]
+
+/-- **the error path is live and exact**: whenever `walk` has returned, whatever happened (errors, cancellation), every
+visitor that was entered has returned exactly once, no vertex was entered twice, and the value returned is `nil`
+exactly when no failing visit reached the errgroup — otherwise the first one. -/
+theorem outcome_on_return {g : Graph} {lim : Option Nat} (hg : GraphOK g) {s : St} (h : Reach g lim s) (ht : terminal s) :
+    (∀ v, (starts s.log).count v = (finishes s.log).count v ∧ (starts s.log).count v ≤ 1) ∧
+    (s.firstErr = none ↔ ∀ v, Ev.finish v true ∉ s.log) := by
+  have ⟨hn1, hn2, _⟩ := once hg h
+  have hfs : ∀ u ∈ finishes s.log, u ∈ starts s.log := (reach_inv hg h).l.finSubStarts
+  have hret := returns_after_all_visits hg h ht
+  have hres := result_first_error hg h
+  refine ⟨fun v => ⟨?_, List.nodup_iff_count.mp hn1 v⟩, ⟨hres.2.2.2 ht, ?_⟩⟩
+  · by_cases hm : v ∈ starts s.log
+    · have a := List.count_pos_iff.mpr hm
+      have b := List.count_pos_iff.mpr (hret v hm)
+      have c := List.nodup_iff_count.mp hn1 v
+      have d := List.nodup_iff_count.mp hn2 v
+      omega
+    · have hm2 : v ∉ finishes s.log := fun x => hm (hfs v x)
+      rw [List.count_eq_zero.mpr hm, List.count_eq_zero.mpr hm2]
+  · intro hno
+    cases hf : s.firstErr with
+    | none => rfl
+    | some v => exact absurd (hres.2.1 v hf) (hno v)
+
 /-! ### non-vacuity: a concrete diamond graph satisfies the hypotheses and has a complete successful run -/
 
 /-- diamond: 3 depends on 1 and 2, which depend on 0 -/
@@ -233,6 +337,34 @@ example : (runL diamond none (init diamond)
 
 /-- the measure of `terminates` on the diamond: no schedule has more than 54 steps (the complete run above has 46) -/
 example : mu diamond (init diamond) = 54 ∧ diamondRun.length = 46 := by decide
+
+/-- non-vacuity for `exact_counts_on_success` on the ignored-node path: 1 depends on 0, the root selection keeps only 1;
+0 goes through the whole life cycle without its visitor being entered, 1 is visited exactly once -/
+def chainSkip : Graph :=
+  { verts := [0, 1], pre := fun v => if v = 1 then [0] else [], post := fun v => if v = 0 then [1] else [],
+    skip := fun v => v == 0 }
+
+example : GraphOK chainSkip :=
+  ⟨by decide, by decide, by decide, by decide, by decide, ⟨fun v => v, by decide⟩⟩
+
+example : (runL chainSkip (some 1) (init chainSkip)
+    [.schedNext .M 0, .ready .M, .enter .M, .spawn .M, .schedEnd .M, .wBegin 0, .wDone 0, .wSend 0, .wExit 0,
+     .cRecv, .schedNext .C 1, .ready .C, .enter .C, .spawn .C, .schedEnd .C,
+     .wBegin 1, .wReturn 1 false, .wDone 1, .wSend 1, .wExit 1, .cRecv]).map
+    (fun s => (decide (terminal s) && s.firstErr.isNone && !s.extCancelled && decide (s.status 0 = .visited),
+               (starts s.log).count 0, (starts s.log).count 1, s.received))
+    = some (true, 0, 1, [1, 0]) := by decide
+
+/-- non-vacuity for the third alternative of `progress_internal`: with the only visitor in progress nothing else can
+move (coordinator at `select` on an empty channel, caller in `eg.Wait`) — `walk` waits for the visitor and only for it -/
+example : (runL chainSkip none (init chainSkip)
+    [.schedNext .M 0, .ready .M, .enter .M, .spawn .M, .schedEnd .M, .wBegin 0, .wDone 0, .wSend 0, .wExit 0,
+     .cRecv, .schedNext .C 1, .ready .C, .enter .C, .spawn .C, .schedEnd .C, .wBegin 1]).map
+    (fun s => (decide (terminal s), wpc s.workers 1,
+               (step? chainSkip none s .cRecv).isSome || (step? chainSkip none s .cCtxDone).isSome ||
+               (step? chainSkip none s (.schedEnd .C)).isSome || (step? chainSkip none s (.wDone 1)).isSome,
+               (step? chainSkip none s (.wReturn 1 true)).isSome))
+    = some (false, some .running, false, true) := by decide
 
 end CV.Trav
 
